@@ -97,18 +97,33 @@ def cleanNamespaces (s : Sheet) : Sheet × Option Err := cleanLoop (view s) (s.l
 
 /-! ### insertRule -/
 
-def lastIdxOf (s : Sheet) (k : Kind) : Option Nat :=
-  ((List.range s.length).filter (fun i => match s[i]? with | some r => r.kind = k | none => false)).getLast?
+/-- split after the last rule satisfying `p`: `(pre, rest)` with `pre ++ rest = s`, no `p` in `rest`,
+and `pre` empty or ending in a `p`-rule (the "find last of this type" loops) -/
+def splitLast (p : Rule → Bool) (s : Sheet) : Sheet × Sheet :=
+  ((s.reverse.dropWhile (fun x => !p x)).reverse, (s.reverse.takeWhile (fun x => !p x)).reverse)
 
-def firstIdxIn (s : Sheet) (ks : List Kind) : Option Nat := s.findIdx? (kindIn ks)
+/-- split before the first rule satisfying `q` (the "find first point to insert" loops) -/
+def splitFirst (q : Rule → Bool) (s : Sheet) : Sheet × Sheet :=
+  (s.takeWhile (fun x => !q x), s.dropWhile (fun x => !q x))
 
 def headIs (s : Sheet) (k : Kind) : Bool := match s.head? with | some r => r.kind = k | none => false
 
 def bodyKinds : List Kind := [.variables, .media, .page, .style, .fontface]
 
+/-- in-order position of a rule kind that must follow the `before` kinds and precede the `cands`:
+after the last rule of its own kind if there is one; else in front of the first candidate —
+with the repaired code only candidates behind the last `before`-rule count -/
+def inOrderPlace (fixedOrder : Bool) (s : Sheet) (own : Kind) (before cands : List Kind)
+    (fallback : Nat) : Nat :=
+  if !(splitLast (isKind own) s).1.isEmpty then (splitLast (isKind own) s).1.length
+  else
+    let sp := if fixedOrder then splitLast (kindIn before) s else ([], s)
+    let sf := splitFirst (kindIn cands) sp.2
+    if !sf.2.isEmpty then sp.1.length + sf.1.length else fallback
+
 /-- `insertRule(rule, index, inOrder)` for a well-formed rule object.
 `fixedOrder` = the repaired in-order placement of @namespace/@variables (after the last rule that
-must precede them); with `false` the placement is the original one -/
+must precede them); with `false` the placement is the one of the pinned snapshot -/
 def insertRule (fixedOrder : Bool) (s : Sheet) (r : Rule) (index : Option Nat) (inOrder : Bool)
     (clean : Bool := true) : Sheet × Res :=
   let index := index.getD s.length
@@ -123,9 +138,8 @@ def insertRule (fixedOrder : Bool) (s : Sheet) (r : Rule) (index : Option Nat) (
     else (insertAt s index r, .ok index)
   | .import =>
     if inOrder then
-      let idx := match lastIdxOf s .import with
-        | some j => j + 1
-        | none => if headIs s .charset || headIs s .comment then 1 else 0
+      let idx := if !(splitLast (isKind .import) s).1.isEmpty then (splitLast (isKind .import) s).1.length
+        else if headIs s .charset || headIs s .comment then 1 else 0
       (insertAt s idx r, .ok idx)
     else if index = 0 && headIs s .charset then (s, .raised .hierarchy)
     else if (s.take index).any (kindIn (.namespace :: bodyKinds)) then (s, .raised .hierarchy)
@@ -133,17 +147,7 @@ def insertRule (fixedOrder : Bool) (s : Sheet) (r : Rule) (index : Option Nat) (
   | .namespace =>
     let place : Option Nat :=
       if inOrder then
-        match lastIdxOf s .namespace with
-        | some j => some (j + 1)
-        | none =>
-          let start := if fixedOrder then
-              (match (List.range s.length).filter (fun i => match s[i]? with
-                  | some x => x.kind = .charset || x.kind = .import | none => false) |>.getLast? with
-               | some j => j + 1 | none => 0)
-            else 0
-          match firstIdxIn (s.drop start) (bodyKinds ++ [.unknown, .comment]) with
-          | some j => some (start + j)
-          | none => some index
+        some (inOrderPlace fixedOrder s .namespace [.charset, .import] (bodyKinds ++ [.unknown, .comment]) index)
       else if (s.drop index).any (kindIn [.charset, .import]) then none
       else if (s.take index).any (kindIn bodyKinds) then none
       else some index
@@ -161,18 +165,8 @@ def insertRule (fixedOrder : Bool) (s : Sheet) (r : Rule) (index : Option Nat) (
   | .variables =>
     let place : Option Nat :=
       if inOrder then
-        match lastIdxOf s .variables with
-        | some j => some (j + 1)
-        | none =>
-          let start := if fixedOrder then
-              (match (List.range s.length).filter (fun i => match s[i]? with
-                  | some x => x.kind = .charset || x.kind = .import || x.kind = .namespace
-                  | none => false) |>.getLast? with
-               | some j => j + 1 | none => 0)
-            else 0
-          match firstIdxIn (s.drop start) [.media, .page, .style, .fontface, .unknown, .comment] with
-          | some j => some (start + j)
-          | none => some index
+        some (inOrderPlace fixedOrder s .variables [.charset, .import, .namespace]
+          [.media, .page, .style, .fontface, .unknown, .comment] index)
       else if (s.drop index).any (kindIn [.charset, .import, .namespace]) then none
       else if (s.take index).any (kindIn [.media, .page, .style, .fontface]) then none
       else some index
